@@ -140,10 +140,18 @@ func (m *model) named(name string) bool {
 
 type model struct {
 	pools map[string]*mpool
+	// captured: split-merge mode only - the live set of the child branch as read by the first half of a merge
+	captured map[*event]map[string]bool
 }
 
 func (m *model) clone() *model {
 	c := &model{pools: map[string]*mpool{}}
+	if m.captured != nil {
+		c.captured = map[*event]map[string]bool{}
+		for k, v := range m.captured {
+			c.captured[k] = v // never modified after capture
+		}
+	}
 	for pn, p := range m.pools {
 		cp := &mpool{name: p.name, branches: map[string]map[string]bool{}}
 		for bn, b := range p.branches {
@@ -169,6 +177,74 @@ type event struct {
 }
 
 func (e *event) name() string { return fmt.Sprintf("c%d.%d:%s", e.client, e.idx, e.op.String()) }
+
+// applyHalf runs one half of a merge in the split-merge specification: half 1 reads the child branch's content,
+// half 2 applies the difference between that content and the common ancestor to the parent as it is then.
+func (m *model) applyHalf(e *event, half int) bool {
+	p, ok := m.pools[e.op.Pool]
+	if !ok {
+		return false
+	}
+	if half == 1 {
+		child, ok1 := p.branches[e.op.Branch]
+		_, ok2 := p.branches[e.op.Other]
+		if !ok1 || !ok2 {
+			return false
+		}
+		cp := map[string]bool{}
+		for k := range child {
+			cp[k] = true
+		}
+		if m.captured == nil {
+			m.captured = map[*event]map[string]bool{}
+		}
+		m.captured[e] = cp
+		return true
+	}
+	child, ok1 := m.captured[e]
+	parent, ok2 := p.branches[e.op.Other]
+	if !ok1 || !ok2 {
+		return false
+	}
+	return mergeInto(child, parent)
+}
+
+// mergeInto applies (child - common ancestor) to parent; false = the merge must fail.
+func mergeInto(child, parent map[string]bool) bool {
+	base := map[string]bool{}
+	for _, id := range baseObjs {
+		base[id] = true
+	}
+	changed := false
+	// everything the child deleted since the common ancestor must still be in the parent (else: delete conflict)
+	for id := range base {
+		if !child[id] {
+			if !parent[id] {
+				return false
+			}
+			changed = true
+		}
+	}
+	for id := range child {
+		if !base[id] && !parent[id] {
+			changed = true
+		}
+	}
+	if !changed {
+		return false // "difference is empty"
+	}
+	for id := range base {
+		if !child[id] {
+			delete(parent, id)
+		}
+	}
+	for id := range child {
+		if !base[id] {
+			parent[id] = true
+		}
+	}
+	return true
+}
 
 // apply runs the operation in the sequential specification; ok=false means it must fail there.
 func (m *model) apply(e *event) bool {
@@ -223,39 +299,7 @@ func (m *model) apply(e *event) bool {
 		if !ok1 || !ok2 {
 			return false
 		}
-		base := map[string]bool{}
-		for _, id := range baseObjs {
-			base[id] = true
-		}
-		changed := false
-		// everything the child deleted since the common ancestor must still be in the parent (else: delete conflict)
-		for id := range base {
-			if !child[id] {
-				if !parent[id] {
-					return false
-				}
-				changed = true
-			}
-		}
-		for id := range child {
-			if !base[id] && !parent[id] {
-				changed = true
-			}
-		}
-		if !changed {
-			return false // "difference is empty"
-		}
-		for id := range base {
-			if !child[id] {
-				delete(parent, id)
-			}
-		}
-		for id := range child {
-			if !base[id] {
-				parent[id] = true
-			}
-		}
-		return true
+		return mergeInto(child, parent)
 	}
 	b, ok := p.branches[op.Branch]
 	if !ok {
@@ -586,7 +630,8 @@ func runCase(c Case) *vt.Outcome {
 		return sb.String()
 	}
 	// judge checks every end-of-history oracle on a store and returns the first failure.
-	judge := func(st *memstore.Store) *vt.Failure {
+	// With split set, a merge is two steps (read the child branch; apply to the parent), both inside its interval.
+	judge := func(st *memstore.Store, split bool) *vt.Failure {
 		cold, err := lakeh.Open(ctx, st, mode, nil)
 		if err != nil {
 			return fail("C12/reopen-failed", "%v\n%s", err, describe())
@@ -701,7 +746,19 @@ func runCase(c Case) *vt.Outcome {
 			}
 		}
 		// linearization search over acknowledged operations
-		n := len(acked)
+		type step struct {
+			e    *event
+			half int // 0: whole operation; 1, 2: halves of a split merge
+		}
+		var steps []step
+		for _, e := range acked {
+			if split && e.op.Kind == "merge" {
+				steps = append(steps, step{e, 1}, step{e, 2})
+			} else {
+				steps = append(steps, step{e, 0})
+			}
+		}
+		n := len(steps)
 		matches := func(m *model) string {
 			if len(m.pools) != len(observed) {
 				return fmt.Sprintf("pools %v vs observed %v", keys(m.pools), keys(observed))
@@ -754,15 +811,18 @@ func runCase(c Case) *vt.Outcome {
 				if used[i] {
 					continue
 				}
-				// real-time order: an unplaced op that returned before acked[i] was invoked must come first
+				// real-time order: an unplaced op that returned before steps[i] was invoked must come first
 				okRT := true
 				for j := 0; j < n; j++ {
 					if used[j] || j == i {
 						continue
 					}
-					before := acked[j].ret < acked[i].invoke
-					if acked[j].client == acked[i].client {
-						before = acked[j].idx < acked[i].idx
+					ej, ei := steps[j].e, steps[i].e
+					before := ej.ret < ei.invoke
+					if ej == ei {
+						before = steps[j].half < steps[i].half
+					} else if ej.client == ei.client {
+						before = ej.idx < ei.idx
 					}
 					if before {
 						okRT = false
@@ -772,9 +832,15 @@ func runCase(c Case) *vt.Outcome {
 					continue
 				}
 				m2 := m.clone()
-				if !m2.apply(acked[i]) {
+				var applied bool
+				if steps[i].half == 0 {
+					applied = m2.apply(steps[i].e)
+				} else {
+					applied = m2.applyHalf(steps[i].e, steps[i].half)
+				}
+				if !applied {
 					if bestWhy == "" {
-						bestWhy = fmt.Sprintf("%s was acknowledged but cannot succeed at this point of any tried order", acked[i].name())
+						bestWhy = fmt.Sprintf("%s was acknowledged but cannot succeed at this point of any tried order", steps[i].e.name())
 					}
 					continue
 				}
@@ -791,7 +857,7 @@ func runCase(c Case) *vt.Outcome {
 			for _, e := range acked {
 				kinds[e.op.Kind] = true
 			}
-			return fail("C12/not-linearizable/"+strings.Join(keys(kinds), "+"), "no order of the %d acknowledged operations that respects real time explains the outcome (%s)\n%s", n, bestWhy, describe())
+			return fail("C12/not-linearizable/"+strings.Join(keys(kinds), "+"), "no order of the %d acknowledged operations that respects real time explains the outcome (%s)\n%s", len(acked), bestWhy, describe())
 		}
 		return nil
 	}
@@ -806,7 +872,22 @@ func runCase(c Case) *vt.Outcome {
 	if len(acked) > 7 {
 		return &vt.Outcome{Skip: "too-many-acked-ops"}
 	}
-	if f := judge(store); f != nil {
+	if f := judge(store, false); f != nil {
+		// Known class: a merge is not atomic.  It reads the child branch's tip once when the operation starts and
+		// commits the difference to the parent later (retrying on the parent only), so operations acknowledged in
+		// between - a load on the child, the child's removal, a vector add on an object the merge deletes - can be
+		// explained only if the merge is two steps.  If the outcome is explained with every merge split into
+		// (read child, apply to parent), both inside the merge's interval, the failure is exactly this class.
+		const sigMerge = "C12/merge-not-atomic/child-tip-read-at-start"
+		if strings.HasPrefix(f.Sig, "C12/not-linearizable/") && strings.Contains(f.Sig, "merge") && judge(store, true) == nil {
+			if vt.IsKnown(sigMerge) {
+				o.Known = append(o.Known, sigMerge)
+				o.Evals = granted
+				return o
+			}
+			o.Fail = fail(sigMerge, "the outcome is explained only when a merge is taken as two steps (read the child branch's tip, later apply to the parent); as one atomic operation: %s: %s", f.Sig, f.Msg)
+			return o
+		}
 		// Known class (file-like storage only): a client reads <commit>.snap.zng while another client is between the
 		// truncating open and the write of that file, decodes the empty file as an empty snapshot, trusts it and later
 		// persists its own wrong snapshot over it.  The commit objects and journals are intact: if every oracle holds
@@ -821,7 +902,7 @@ func runCase(c Case) *vt.Outcome {
 					poisoned++
 				}
 			}
-			if poisoned > 0 && judge(clean) == nil {
+			if poisoned > 0 && judge(clean, false) == nil {
 				if vt.IsKnown(sigSnap) {
 					o.Known = append(o.Known, sigSnap)
 					o.Evals = granted
